@@ -259,6 +259,49 @@ type c08Case struct {
 // reference deterministic encoding, stable across repetitions and insertion
 // orders), canonical, consistent with what was signed, and closed under the
 // decoder.
+// outTracker remembers byte strings exactly as an encoder returned them (the
+// slices themselves, not copies) next to a private copy: bytes handed to the
+// caller belong to the caller, so they must still read the same after the
+// library has encoded any number of other things.
+type outTracker struct {
+	names []string
+	outs  [][]byte
+	want  [][]byte
+}
+
+func (o *outTracker) keep(name string, out []byte) {
+	o.names = append(o.names, name)
+	o.outs = append(o.outs, out)
+	o.want = append(o.want, append([]byte{}, out...))
+}
+
+var churnKey = func() *cose.Key {
+	k := cose.NewKeySymmetric([]byte("0123456789abcdef0123456789abcdef"))
+	k.ID = []byte("churn")
+	return k
+}()
+
+// check encodes a few unrelated values of every kind and then compares.
+func (o *outTracker) check() error {
+	for i := 0; i < 3; i++ {
+		cose.ProtectedHeader{int64(1): cose.AlgorithmES256, int64(4): []byte("churn-churn-churn-churn-churn-churn-churn-churn-churn-churn-churn")}.MarshalCBOR()
+		cose.UnprotectedHeader{int64(4): []byte("CHURN-CHURN-CHURN-CHURN-CHURN-CHURN-CHURN-CHURN-CHURN-CHURN-CHURN"), "churn": int64(i)}.MarshalCBOR()
+		m := cose.Sign1Message{Headers: cose.Headers{Protected: cose.ProtectedHeader{int64(1): cose.AlgorithmEdDSA}, Unprotected: cose.UnprotectedHeader{int64(4): []byte("churn")}}, Payload: bytes.Repeat([]byte{0xcc}, 90), Signature: bytes.Repeat([]byte{0xdd}, 64)}
+		m.MarshalCBOR()
+		(&cose.SignMessage{Headers: m.Headers, Payload: m.Payload, Signatures: []*cose.Signature{{Headers: m.Headers, Signature: m.Signature}}}).MarshalCBOR()
+		churnKey.MarshalCBOR()
+	}
+	for i, out := range o.outs {
+		if !bytes.Equal(out, o.want[i]) {
+			return finding("output-overwritten-later", "bytes returned by %s changed after the library encoded other values\nreturned=%x\n     now=%x", o.names[i], o.want[i], out)
+		}
+	}
+	if len(o.outs) > 0 {
+		stats.Class("returned-bytes-rechecked-after-other-encodings")
+	}
+	return nil
+}
+
 func checkC08(c c08Case) error {
 	r, err := runConstructed(&c.Spec, false)
 	if err != nil {
@@ -274,11 +317,23 @@ func checkC08(c c08Case) error {
 		return finding("not-reference-encoding", "encoder output differs from the deterministic reference encoding\n got=%x\nwant=%x", r.out, r.want)
 	}
 	// repeated encodings of the same value
+	var kept outTracker
+	kept.keep(kind.String()+".MarshalCBOR", r.out)
 	for i := 0; i < 7; i++ {
 		again, err := r.m.marshal()
 		if err != nil || !bytes.Equal(again, r.out) {
 			return finding("unstable", "repeated MarshalCBOR differs (err=%v)\n first=%x\n again=%x", err, r.out, again)
 		}
+		kept.keep(kind.String()+".MarshalCBOR", again)
+	}
+	if p, err := r.m.headers().MarshalProtected(); err == nil {
+		kept.keep("Headers.MarshalProtected", p)
+	}
+	if u, err := r.m.headers().MarshalUnprotected(); err == nil {
+		kept.keep("Headers.MarshalUnprotected", u)
+	}
+	if err := kept.check(); err != nil {
+		return err
 	}
 	// encoding is read-only, and a later change to the in-memory message shows in the next encoding
 	snap := bridge.Dump(r.m.s1) + bridge.Dump(r.m.u1) + bridge.Dump(r.m.sm)
@@ -493,6 +548,7 @@ func checkC08Headers(c c08HdrCase) error {
 			wantP = rc.Encode(rc.Bytes(rc.Encode(p, nil)), nil)
 		}
 		wantU := rc.Encode(u, nil)
+		var kept outTracker
 		for i := 0; i < 4; i++ {
 			gotP, err := bridge.ToProtected(p).MarshalCBOR()
 			if err != nil {
@@ -510,6 +566,11 @@ func checkC08Headers(c c08HdrCase) error {
 			if !bytes.Equal(gotU, wantU) {
 				return finding("not-reference-encoding", "UnprotectedHeader.MarshalCBOR\n got=%x\nwant=%x", gotU, wantU)
 			}
+			kept.keep("ProtectedHeader.MarshalCBOR", gotP)
+			kept.keep("UnprotectedHeader.MarshalCBOR", gotU)
+		}
+		if err := kept.check(); err != nil {
+			return err
 		}
 		// closure
 		var dp cose.ProtectedHeader
@@ -638,17 +699,22 @@ func checkC08Key(c c08KeyCase) error {
 	want := rc.Encode(full.val(), nil)
 	k := c.libKey()
 	var first []byte
+	var kept outTracker
 	for i := 0; i < 6; i++ {
 		got, err := k.MarshalCBOR()
 		if err != nil {
 			stats.Class("refused/" + shortErr(err))
 			return nil
 		}
+		kept.keep("Key.MarshalCBOR", got)
 		if i == 0 {
 			first = got
 		} else if !bytes.Equal(got, first) {
 			return finding("unstable", "repeated Key.MarshalCBOR differs\n first=%x\n again=%x", first, got)
 		}
+	}
+	if err := kept.check(); err != nil {
+		return err
 	}
 	if !bytes.Equal(first, want) {
 		return finding("not-reference-encoding", "Key.MarshalCBOR differs from the deterministic reference encoding\n got=%x\nwant=%x", first, want)
